@@ -362,4 +362,10 @@ def r11_5(cx):
                  fail_detail='once-per-path=%s, appends self\'s bytes=%s, len of self\'s bytes=%s (%s), other calls=%s' % (once, views, lenok, show(r)[:60], [short(c.callee) for c in others]))
 
 
-RULES = [('R11.1', r11_1), ('R11.2', r11_2), ('R11.3', r11_3), ('R11.4', r11_4), ('R11.5', r11_5)]
+def r11_6(cx):
+    """what the encoder writes into: a sink whose allocator serves every value size (R17.7) and whose size accounting survives reuse (R3.2)"""
+    from . import c17, c03
+    compose(cx, [('R17.7', c17.r17_7), ('R3.2', c03.r3_2)])
+
+
+RULES = [('R11.1', r11_1), ('R11.2', r11_2), ('R11.3', r11_3), ('R11.4', r11_4), ('R11.5', r11_5), ('R11.6', r11_6)]
